@@ -37,6 +37,12 @@ def build():
     A(Op("uss_x", lambda x, a: x.spec.uss_x(depth=a["depth0"]), scale="lin", rot="skip"))
     A(Op("uss_y", lambda x, a: x.spec.uss_y(), scale="lin", rot="skip"))
     A(Op("mss", lambda x, a: x.spec.mss(), needs_dir=False, scale="lin"))
+    # the same with the depth given per position (a DataArray over the non-spectral dims, possibly in another order or
+    # lacking one of them): each spectrum with its own depth
+    A(Op("uss_dpt", lambda x, a: x.spec.uss(depth=a["dpt"]), scale="lin"))
+    A(Op("uss_x_dpt", lambda x, a: x.spec.uss_x(depth=a["dpt"]), scale="lin", rot="skip"))
+    A(Op("uss_y_dpt", lambda x, a: x.spec.uss_y(depth=a["dpt"]), scale="lin", rot="skip"))
+    A(Op("mss_dpt", lambda x, a: x.spec.mss(depth=a["dpt"]), needs_dir=False, scale="lin"))
     A(Op("oned", lambda x, a: x.spec.oned(), kind="spectra", scale="lin"))
     A(Op("to_energy", lambda x, a: x.spec.to_energy(), kind="spectra", needs_dir=False, scale="lin", rot="relabel"))
     A(Op("tp", lambda x, a: x.spec.tp(), needs_dir=False, min_nf=3, peak=True))
